@@ -2,9 +2,10 @@ package props
 
 import (
 	"fmt"
-	"time"
+	"regexp"
 	"sort"
 	"strings"
+	"time"
 
 	"verifharness/fw"
 	"verifharness/gen"
@@ -44,13 +45,13 @@ func pick(tier string, quick, thorough int) int {
 }
 
 type c01Outcome struct {
-	val     *tree.T
-	err     bool
-	cond    string
-	panic   bool
-	trace   []rt.Probe
-	stderr  string
-	steps   int64
+	val      *tree.T
+	err      bool
+	cond     string
+	panic    bool
+	trace    []rt.Probe
+	stderr   string
+	steps    int64
 	rendered string
 }
 
@@ -203,11 +204,53 @@ func c01Layout(r *fw.RNG) *sx.Layout {
 	return &sx.Layout{Gap: func() string { return " " }, Top: func() string { return "\n\n; top\n" }}
 }
 
+var c01Sigs = refint.Signatures()
+
+// builtins whose results name process state the model does not mirror
+var c01SweepSkip = map[string]bool{"gensym": true, "in-package": true, "use-package": true, "export": true, "load-string": true}
+
+// c01Sweep builds a builtin-focused program: one modelled function or operator
+// applied to argument tuples from the full literal pool, every arity 0..max+1.
+func c01Sweep(r *fw.RNG, g *gen.G) []*sx.N {
+	var forms []*sx.N
+	for n := 0; n < 6; n++ {
+		sg := c01Sigs[r.Intn(len(c01Sigs))]
+		if sg.Kind != refint.FnFunction || c01SweepSkip[sg.Name] {
+			continue
+		}
+		maxA := sg.Max
+		if maxA < 0 {
+			maxA = sg.Min + 3
+		}
+		k := r.Range(0, maxA+1)
+		if r.Chance(3, 4) && k < sg.Min {
+			k = sg.Min
+		}
+		args := make([]*sx.N, k)
+		tys := make([]string, k)
+		for i := range args {
+			args[i], tys[i] = g.ArgLiteral()
+		}
+		g.Feat["sweep:"+sg.Name] = true
+		call := sx.Call(sg.Name, args...)
+		forms = append(forms, sx.Call("verif:probe", sx.QY(fmt.Sprintf("s%d", n)),
+			sx.Call("handler-bind", sx.L(sx.L(sx.Y("condition"), sx.Call("lambda", sx.L(sx.Y("c"), sx.Y("&rest"), sx.Y("a")), sx.Call("list", sx.QY("failed"), sx.Y("c"))))), call)))
+	}
+	forms = append(forms, sx.I(0))
+	return forms
+}
+
 func c01Run(w *fw.W, idx int) {
 	r := w.RNG(idx, "prog")
 	prof, pname := c01Profile(r, idx)
 	g := gen.New(r, prof)
-	forms := g.Program()
+	var forms []*sx.N
+	if idx%5 == 4 {
+		pname = "builtin-sweep"
+		forms = c01Sweep(r, g)
+	} else {
+		forms = g.Program()
+	}
 	src := sx.Render(forms, c01Layout(w.RNG(idx, "layout")))
 	w.Logf("source:\n%s", src)
 	t0 := time.Now()
@@ -280,6 +323,13 @@ func c01Run(w *fw.W, idx int) {
 	case strings.HasPrefix(diff, "stderr"):
 		cls = "stderr"
 	}
+	if pname == "builtin-sweep" {
+		if m := c01SweepRe.FindStringSubmatch(diff); m != nil {
+			if n := c01SweepName(forms, m[1]); n != "" {
+				cls = "builtin:" + n
+			}
+		}
+	}
 	w.Violation("model-disagreement:"+cls, diff, fmt.Sprintf("profile=%s\nsource:\n%s\nreal: %s\nmodel: val=%v err=%v site=%s", pname, src, real.rendered, m.val, m.err, c01Site(m.err)))
 }
 
@@ -288,4 +338,18 @@ func c01Site(e *refint.Err) string {
 		return "-"
 	}
 	return fmt.Sprintf("%d:%d %s", e.Site.Line, e.Site.Col, e.Site.String())
+}
+
+var c01SweepRe = regexp.MustCompile(`\((s[0-9]+)\)|real (s[0-9]+):`)
+
+func c01SweepName(forms []*sx.N, tag string) string {
+	for _, f := range forms {
+		if f.Head() == "verif:probe" && len(f.L) == 3 && f.L[1].K == sx.Quote && f.L[1].L[0].S == tag {
+			hb := f.L[2]
+			if len(hb.L) == 3 {
+				return hb.L[2].Head()
+			}
+		}
+	}
+	return ""
 }
